@@ -83,6 +83,8 @@ def file_for(kind, flavour):
         mv('M_big', 'f4', ('z', 'x'), (1, 3), 'fill_value', 1e20, 1)
         mv('M_zero', 'i2', ('t', 'x'), (2, 3), 'fill_value', 0, 5)
         mv('M_all', 'f8', ('x',), (3,), 'fill_value', -999., slice(None))
+        # a missing_value attribute AND a different fill value on the same variable
+        mv('M_both', 'f4', ('t', 'x'), (2, 3), 'both', -99., 2)
         f.vars['plain'] = RVar(('x',), ramp('f4', (3,), 5), attrs={'units': 'm'})
         f.attrs['title'] = 'masked'
     elif kind == 'attrs':
@@ -191,7 +193,10 @@ def build_real(rf):
         tc = 'c' if v.data.dtype.kind == 'S' else v.data.dtype.char
         if v.masked:
             fk = getattr(rf, 'fillkinds', {}).get(k, 'fill_value')
-            if fk == 'fill_value':
+            if fk == 'both':
+                kw['missing_value'] = np.array(-5).astype(v.data.dtype)[()]
+                var = f.createVariable(k, tc, v.dims, fill_value=v.fill, **kw)
+            elif fk == 'fill_value':
                 var = f.createVariable(k, tc, v.dims, fill_value=v.fill, **kw)
             else:
                 kw[fk] = np.array(v.fill).astype(v.data.dtype)[()]
@@ -375,8 +380,10 @@ class Prop(core.Prop):
             if ev is None or not ev.masked:
                 out.append(viol('spurious-_FillValue', sig, '%s has _FillValue=%r but was not masked'
                                 % (where, got['_FillValue']), **scope))
-            elif ev.fill is not None and not rfile.attr_equal(
-                    np.asarray(got['_FillValue']).astype(ev.data.dtype), np.asarray(ev.fill).astype(ev.data.dtype)):
+            elif ev.fill is not None and not any(rfile.attr_equal(
+                    np.asarray(got['_FillValue']).astype(ev.data.dtype), np.asarray(c_).astype(ev.data.dtype))
+                    for c_ in [ev.fill] + ([exp['missing_value']] if 'missing_value' in exp else [])):
+                # (a variable may declare a missing_value next to its fill value: either may be the on-disk fill)
                 out.append(viol('_FillValue-value', sig, '%s._FillValue=%r expected %r'
                                 % (where, got['_FillValue'], ev.fill), **scope))
         return out
